@@ -151,7 +151,8 @@ PROPS = {
         "props_file": "Props/C01.v",
         "run_module": "Model.Graph Model.Walk Model.RunC15 Model.RunC02 Model.RunC14 Model.Prune Model.RunC17 Model.Builder Model.RunC01 Model.Jsr Model.RunJsr Model.RunJsrAll",
         "run_fn": "run_c01j",
-        "pinned_theorems": ["C01_complete", "C01_settled_unfold", "C01_single_entry_step", "C01_recorded_dep", "C01_nothing_pending"],
+        "pinned_theorems": ["C01_complete", "C01_settled_unfold", "C01_single_entry_step", "C01_recorded_dep", "C01_nothing_pending",
+                            "C01_registry_complete", "C01_registry_settled_unfold"],
         "rule": ("proviso worlds of 2-11 modules (JS/TS/JSX/TSX/d.ts/mjs/mts/JSON by extension or content-type header; "
                  "static/named/type-only/dynamic/export-star/export-type/@deno-types/reference types+path/self-types/"
                  "x-typescript-types/JSDoc/import-type imports; json/text/bytes/bogus attributes as a function of the "
@@ -167,7 +168,7 @@ PROPS = {
             "stage B1 + registry stage B2: no npm resolution, no source-phase imports, no source maps, utf-8 sources",
             "the loader is a function of its arguments",
         ],
-        "partial": ["completeness (nothing reachable is absent) is proved for every world (C01_complete); the converse (nothing unreachable is present) is not yet proved and is checked per case (model = real builder; C15/C02 on the same real graphs)"],
+        "partial": ["completeness (nothing reachable is absent) is proved for every world, for stage B1 (C01_complete) and for the registry stage (C01_registry_complete, no hypothesis on the world); the converse (nothing unreachable is present) is not yet proved and is checked per case (model = real builder; C15/C02 on the same real graphs)"],
     },
     "C03": {
         "harness": "c03",
